@@ -185,11 +185,26 @@ func (repo *Repository) PreviousHash(hash bitcoin.Hash32) (*bitcoin.Hash32, int)
 
 	branch, height := repo.branches.Find(hash)
 	if height == -1 {
+		// Headers of the main chain that were pruned from memory are still held in storage under
+		// their height.
+		if h, exists := repo.heights[hash]; exists && h > 0 {
+			header, err := repo.header(context.Background(), h)
+			if err == nil && header.BlockHash().Equal(&hash) {
+				previousHash := header.PrevBlock
+				return &previousHash, h - 1
+			}
+		}
 		return nil, -1
 	}
 
 	at := branch.AtHeight(height - 1)
 	if at == nil {
+		// The previous header can be pruned from memory while this one is still held. The header
+		// itself names its predecessor.
+		if current := branch.AtHeight(height); current != nil && height > 0 {
+			previousHash := current.Header.PrevBlock
+			return &previousHash, height - 1
+		}
 		return nil, -1
 	}
 
